@@ -18,10 +18,10 @@ use algebra_mc::toycurve::{SwToy, TeToy};
 use ark_ec::pairing::{Pairing, PairingOutput};
 use ark_ec::short_weierstrass::{self as sw, SWCurveConfig, SWFlags};
 use ark_ec::twisted_edwards::{self as te, TECurveConfig, TEFlags};
-use ark_ec::{AffineRepr, CurveConfig};
+use ark_ec::{AffineRepr, CurveConfig, CurveGroup};
 use ark_ff::{AdditiveGroup, BigInteger, Field, Fp2, Fp2Config, Fp3, Fp3Config, MontFp, One, PrimeField, Zero};
 use ark_serialize::{
-    CanonicalDeserialize, CanonicalDeserializeWithFlags, CanonicalSerialize, CanonicalSerializeWithFlags, Compress, EmptyFlags, Flags, Validate,
+    CanonicalDeserialize, CanonicalDeserializeWithFlags, CanonicalSerialize, CanonicalSerializeWithFlags, Compress, EmptyFlags, Flags, Valid, Validate,
 };
 use num_bigint::BigUint;
 use num_traits::{One as NOne, Zero as NZero};
@@ -650,8 +650,12 @@ enum Cls {
     Valid(usize),
 }
 impl Cls {
-    fn must_reject_checked(&self) -> bool {
-        matches!(self, Cls::Trunc | Cls::BadFlags | Cls::BadInt | Cls::NoSqrt | Cls::OffCurve | Cls::OutSub(_))
+    /// C10 names encodings of off-curve points, of points outside the subgroup and of x without a root (and inputs
+    /// shorter than the encoding) as "rejected".  A non-canonical integer or an illegal flag pattern is not named for
+    /// points: there the property only demands "an error or a valid group element" (validity is judged by the model
+    /// at `checked_returns_invalid_point`); that such inputs are refused is C09's uniqueness claim for FIELD encodings.
+    fn may_accept_checked(&self) -> bool {
+        !matches!(self, Cls::Trunc | Cls::NoSqrt | Cls::OffCurve | Cls::OutSub(_))
     }
     fn label(&self, loc: &mut Loc, len: usize) {
         match self {
@@ -672,17 +676,26 @@ impl Cls {
 /// common verdict: `res` = outcome of the guarded library call: Ok(Ok((oracle index of the returned
 /// point or None if it is not a curve point, is it the identity, the value))) / Ok(Err(())) / Err(panic).
 /// `sites` = [read_past_advertised_size, panic, checked_returns_invalid_point, checked_accepts_bad_encoding,
-/// infinity_flag_returns_non_identity] (static strings: no allocation on the hot path)
-fn judge_point<T: std::fmt::Debug>(
+/// infinity_flag_returns_non_identity, trailing_bytes/read_past_advertised_size, trailing_bytes/result_changes]
+/// (static strings: no allocation on the hot path).
+/// `again` = the same library call on `input ++ [0xA5, 0x5A]` (run only when `input` itself was accepted): the
+/// sweeps enumerate inputs up to the encoding length only, where a reader cannot physically take more than it is
+/// given - so the "does not read past the advertised size" clause is decided on the extended input: it must be
+/// accepted with the same value, having consumed exactly the bytes of the original input (never more than the
+/// advertised size).
+type PointRes<T> = Result<Result<(Option<usize>, bool, T), ()>, String>;
+fn judge_point<T: std::fmt::Debug + PartialEq>(
     loc: &mut Loc,
-    sites: &[&str; 5],
+    sites: &[&str; 7],
     what: &dyn Fn() -> String,
     cls: Cls,
     checked: bool,
     in_subgroup: &dyn Fn(usize) -> bool,
-    res: Result<Result<(Option<usize>, bool, T), ()>, String>,
+    res: PointRes<T>,
     consumed: usize,
     advertised: usize,
+    input_len: usize,
+    again: &dyn Fn() -> (PointRes<T>, usize),
 ) {
     loc.check_at(sites[0], consumed <= advertised, || format!("{}: consumed {consumed} bytes, advertised size {advertised}", what()));
     match res {
@@ -694,16 +707,55 @@ fn judge_point<T: std::fmt::Debug>(
                 loc.check_at(sites[2], valid, || {
                     format!("{}: checked deserialization returned {val:?}, which is {} (model class of the input: {cls:?})", what(), if idx.is_none() { "not on the curve" } else { "outside the prime-order subgroup" })
                 });
-                loc.check_at(sites[3], !cls.must_reject_checked(), || format!("{}: input of model class {cls:?} accepted as {val:?}", what()));
+                loc.check_at(sites[3], cls.may_accept_checked(), || format!("{}: input of model class {cls:?} accepted as {val:?}", what()));
+                loc.class_if(matches!(cls, Cls::BadInt), "observed:checked_accepts_noncanonical_integer_as_valid_point");
+                loc.class_if(matches!(cls, Cls::BadFlags), "observed:checked_accepts_illegal_flags_as_valid_point");
             }
             if matches!(cls, Cls::InfinityJunk | Cls::Identity) {
                 loc.check_at(sites[4], is_id, || format!("{}: infinity flag set but the returned value is {val:?}", what()));
             }
+            // ---- the accepted input again, followed by two more bytes
+            loc.class("accepted_input_fed_again_with_trailing_bytes");
+            let (res2, consumed2) = again();
+            loc.check_at(sites[5], consumed2 <= advertised && consumed2 == input_len, || {
+                format!("{} followed by a55a: consumed {consumed2} bytes; the accepted input has {input_len}, the advertised size is {advertised}", what())
+            });
+            match res2 {
+                Err(p) => loc.fail_at(sites[1], format!("{} followed by a55a: {p}", what())),
+                Ok(Err(())) => loc.fail_at(sites[6], format!("{}: accepted as {val:?}, but rejected when followed by a55a (the result depends on bytes after the encoding)", what())),
+                Ok(Ok((_, _, val2))) => {
+                    loc.check_at(sites[6], val2 == val, || format!("{}: returned {val:?}, but {val2:?} when followed by a55a (the result depends on bytes after the encoding)", what()));
+                }
+            }
         }
     }
 }
-const SW_TOY_SITES: [&str; 5] = ["sw_toy/read_past_advertised_size", "sw_toy/panic", "sw_toy/checked_returns_invalid_point", "sw_toy/checked_accepts_bad_encoding", "sw_toy/infinity_flag_returns_non_identity"];
-const TE_TOY_SITES: [&str; 5] = ["te_toy/read_past_advertised_size", "te_toy/panic", "te_toy/checked_returns_invalid_point", "te_toy/checked_accepts_bad_encoding", "te_toy/infinity_flag_returns_non_identity"];
+/// `b ++ [0xA5, 0x5A]` (toy inputs have at most 6 bytes)
+fn with_trailing(b: &[u8]) -> ([u8; 10], usize) {
+    let mut e = [0u8; 10];
+    e[..b.len()].copy_from_slice(b);
+    e[b.len()] = 0xa5;
+    e[b.len() + 1] = 0x5a;
+    (e, b.len() + 2)
+}
+const SW_TOY_SITES: [&str; 7] = [
+    "sw_toy/read_past_advertised_size",
+    "sw_toy/panic",
+    "sw_toy/checked_returns_invalid_point",
+    "sw_toy/checked_accepts_bad_encoding",
+    "sw_toy/infinity_flag_returns_non_identity",
+    "sw_toy/trailing_bytes/read_past_advertised_size",
+    "sw_toy/trailing_bytes/result_changes",
+];
+const TE_TOY_SITES: [&str; 7] = [
+    "te_toy/read_past_advertised_size",
+    "te_toy/panic",
+    "te_toy/checked_returns_invalid_point",
+    "te_toy/checked_accepts_bad_encoding",
+    "te_toy/infinity_flag_returns_non_identity",
+    "te_toy/trailing_bytes/read_past_advertised_size",
+    "te_toy/trailing_bytes/result_changes",
+];
 
 // ------------------------------------------------------------------------------------------
 // (E) every byte string of every length 0..=L on toy curves
@@ -796,18 +848,301 @@ where
             if loc.sampling() {
                 loc.sample(format!("{} model class {cls:?}", what()));
             }
-            let mut rd = CountReader::new(b);
-            let res = guard(|| {
-                if as_proj {
-                    sw::Projective::<P>::deserialize_with_mode(&mut rd, cm, vm).map(|q| (t.idx_proj(&q), q.z.is_zero(), (q.x, q.y, q.z))).map_err(|_| ())
-                } else {
-                    sw::Affine::<P>::deserialize_with_mode(&mut rd, cm, vm).map(|a| (t.idx_aff(&a), a.infinity, (a.x, a.y, P::BaseField::from(!a.infinity)))).map_err(|_| ())
-                }
-            });
-            let consumed = rd.pos;
-            judge_point(loc, &SW_TOY_SITES, &what, cls, checked, &|i| t.in_subgroup[i], res, consumed, advertised);
+            let call = |input: &[u8]| {
+                let mut rd = CountReader::new(input);
+                let res = guard(|| {
+                    if as_proj {
+                        sw::Projective::<P>::deserialize_with_mode(&mut rd, cm, vm).map(|q| (t.idx_proj(&q), q.z.is_zero(), (q.x, q.y, q.z))).map_err(|_| ())
+                    } else {
+                        sw::Affine::<P>::deserialize_with_mode(&mut rd, cm, vm).map(|a| (t.idx_aff(&a), a.infinity, (a.x, a.y, P::BaseField::from(!a.infinity)))).map_err(|_| ())
+                    }
+                });
+                (res, rd.pos)
+            };
+            let (res, consumed) = call(b);
+            let (eb, el) = with_trailing(b);
+            judge_point(loc, &SW_TOY_SITES, &what, cls, checked, &|i| t.in_subgroup[i], res, consumed, advertised, len, &|| call(&eb[..el]));
         });
     }
+    if t.h > 1 {
+        sw_toy_valid_trait(ctx, &t, name);
+    }
+}
+
+// ------------------------------------------------------------------------------------------
+// (V) the validation entry points themselves - `Valid::check` / `Valid::batch_check` of Projective and
+// Affine (the containers of C18 hand their elements to batch_check; Projective normalizes the batch
+// first) - and the four named wrappers `deserialize_{compressed,uncompressed}[_unchecked]`.
+// Toy curves with cofactor > 1: batches of 1..=4 members, none / exactly one / exactly two of them
+// invalid (a curve point outside the prime-order subgroup, or a pair off the curve), every invalid
+// member of the curve in every position; projective members in representations with Z != 1.
+// Expectation from the model only: Err iff some member is invalid.
+// ------------------------------------------------------------------------------------------
+struct Member<G: CurveGroup> {
+    aff: G::Affine,
+    /// the same point with three different Z (Z = 1 and two generic ones); identity: three junk forms
+    reps: [G; 3],
+    /// 0 = in the prime-order subgroup, 1 = on the curve, outside the subgroup, 2 = off the curve
+    kind: u8,
+    is_identity: bool,
+    label: String,
+}
+/// batches as lists of (position, index into `bad`); the remaining positions hold valid members
+fn batch_plans(nbad: usize, small: &[usize]) -> Vec<(usize, Vec<(usize, usize)>)> {
+    let mut set: std::collections::BTreeSet<(usize, Vec<(usize, usize)>)> = std::collections::BTreeSet::new();
+    for l in 1..=4usize {
+        set.insert((l, vec![]));
+        for k in 0..l {
+            for b in 0..nbad {
+                set.insert((l, vec![(k, b)]));
+            }
+        }
+        for j in 0..l {
+            for k in j + 1..l {
+                for b in 0..nbad {
+                    for s in small {
+                        set.insert((l, vec![(j, b), (k, *s)]));
+                        set.insert((l, vec![(j, *s), (k, b)]));
+                    }
+                }
+            }
+        }
+    }
+    set.into_iter().collect()
+}
+fn valid_trait_batches<G: CurveGroup>(ctx: &mut Ctx, name: &str, good: Vec<Member<G>>, bad: Vec<Member<G>>)
+where
+    G::Affine: std::fmt::Debug,
+{
+    if good.is_empty() || bad.is_empty() {
+        ctx.machinery_error(format!("{name}: validity batches need valid and invalid members ({} / {})", good.len(), bad.len()));
+        return;
+    }
+    // the second invalid member of a pair: the first point outside the subgroup and the first pair off the curve
+    let small: Vec<usize> = [1u8, 2].iter().filter_map(|k| bad.iter().position(|m| m.kind == *k)).collect();
+    let plans = batch_plans(bad.len(), &small);
+    let ng = good.len();
+    // (quick tier: 8 offsets when the product is large - the cubic-extension curve)
+    let nv = if plans.len() * ng > 300_000 { ctx.t(8usize.min(ng), ng) } else { ng };
+    ctx.bound(
+        &format!("valid_trait/{name}"),
+        format!(
+            "batches of 1..=4 members: all valid; exactly one invalid member (each of the {} invalid members = every curve point outside the subgroup + {} pairs off the curve) in every position; exactly two invalid members in every pair of positions (one of them ranging over all invalid members, the other over {} fixed ones); valid positions filled from the {} subgroup points at {nv} offsets; projective members with Z = 1 and two generic Z",
+            bad.len(),
+            bad.iter().filter(|m| m.kind == 2).count(),
+            small.len(),
+            ng
+        ),
+    );
+    let (good, bad, plans) = (&good, &bad, &plans);
+    ctx.sweep(&format!("valid_trait/{name}"), (plans.len() * nv) as u64, |i, loc| {
+        let (pi, v) = ((i as usize) / nv, (i as usize) % nv);
+        let (l, bads) = &plans[pi];
+        let stride = ng / 4 + 1;
+        let members: Vec<&Member<G>> = (0..*l)
+            .map(|k| match bads.iter().find(|(pos, _)| *pos == k) {
+                Some((_, b)) => &bad[*b],
+                None => &good[(v + k * stride + pi) % ng],
+            })
+            .collect();
+        let projs: Vec<G> = members.iter().enumerate().map(|(k, m)| m.reps[(v + k + pi) % 3]).collect();
+        let affs: Vec<G::Affine> = members.iter().map(|m| m.aff).collect();
+        let any_bad = !bads.is_empty();
+        match bads.len() {
+            0 => loc.class("valid_trait:batch_all_valid"),
+            1 => loc.class("valid_trait:batch_one_invalid"),
+            _ => loc.class("valid_trait:batch_two_invalid"),
+        }
+        loc.class_if(bads.iter().any(|(k, _)| *k == 0) && *l > 1, "valid_trait:invalid_member_first");
+        loc.class_if(bads.iter().any(|(k, _)| *k + 1 == *l) && *l > 1, "valid_trait:invalid_member_last");
+        loc.class_if(bads.iter().any(|(k, _)| *k > 0 && *k + 1 < *l), "valid_trait:invalid_member_in_the_middle");
+        loc.class_if(members.iter().any(|m| m.kind == 1), "valid_trait:member_outside_subgroup");
+        loc.class_if(members.iter().any(|m| m.kind == 2), "valid_trait:member_off_curve");
+        loc.class_if(members.iter().any(|m| m.is_identity), "valid_trait:identity_member");
+        loc.class_if(*l == 1, "valid_trait:batch_of_one");
+        let what = || format!("{name} batch [{}] (projective members as {:?})", members.iter().map(|m| m.label.as_str()).collect::<Vec<_>>().join(", "), projs);
+        if loc.sampling() {
+            loc.sample(format!("{} expect {}", what(), if any_bad { "Err" } else { "Ok" }));
+        }
+        // every member on its own
+        for (k, m) in members.iter().enumerate() {
+            let want_err = m.kind != 0;
+            match guard(|| projs[k].check().is_err()) {
+                Err(p) => loc.fail_at("valid_trait/panic", format!("{}: Projective::check of member {k}: {p}", what())),
+                Ok(got) => {
+                    loc.check_at("valid_trait/projective_check", got == want_err, || format!("{}: Projective::check of member {k} ({}) returned {}", what(), m.label, if got { "Err" } else { "Ok" }));
+                }
+            }
+            match guard(|| affs[k].check().is_err()) {
+                Err(p) => loc.fail_at("valid_trait/panic", format!("{}: Affine::check of member {k}: {p}", what())),
+                Ok(got) => {
+                    loc.check_at("valid_trait/affine_check", got == want_err, || format!("{}: Affine::check of member {k} ({}) returned {}", what(), m.label, if got { "Err" } else { "Ok" }));
+                }
+            }
+        }
+        // the batch
+        match guard(|| G::batch_check(projs.iter()).is_err()) {
+            Err(p) => loc.fail_at("valid_trait/panic", format!("{}: Projective::batch_check: {p}", what())),
+            Ok(got) => {
+                loc.check_at("valid_trait/projective_batch_check", got == any_bad, || format!("{}: Projective::batch_check returned {}", what(), if got { "Err" } else { "Ok" }));
+            }
+        }
+        match guard(|| <G::Affine as Valid>::batch_check(affs.iter()).is_err()) {
+            Err(p) => loc.fail_at("valid_trait/panic", format!("{}: Affine::batch_check: {p}", what())),
+            Ok(got) => {
+                loc.check_at("valid_trait/affine_batch_check", got == any_bad, || format!("{}: Affine::batch_check returned {}", what(), if got { "Err" } else { "Ok" }));
+            }
+        }
+    });
+}
+
+/// the four named wrappers against `deserialize_with_mode` with the mode they stand for: same verdict, same
+/// value, same number of bytes taken.  `inputs` = (compressed?, model class, bytes), built from the model.
+fn wrappers_vs_mode<A, G>(ctx: &mut Ctx, label: &str, inputs: &[(bool, &'static str, Vec<u8>)])
+where
+    A: CanonicalDeserialize + PartialEq + std::fmt::Debug,
+    G: CanonicalDeserialize + PartialEq + std::fmt::Debug,
+{
+    fn one<T: CanonicalDeserialize + PartialEq + std::fmt::Debug>(loc: &mut Loc, label: &str, ty: &str, compress: bool, checked: bool, kind: &str, b: &[u8]) {
+        let (cm, vm) = (if compress { Compress::Yes } else { Compress::No }, if checked { Validate::Yes } else { Validate::No });
+        let wname = match (compress, checked) {
+            (true, true) => "deserialize_compressed",
+            (true, false) => "deserialize_compressed_unchecked",
+            (false, true) => "deserialize_uncompressed",
+            (false, false) => "deserialize_uncompressed_unchecked",
+        };
+        let what = || format!("{label} {ty}::{wname} input {} (model class {kind})", hex(b));
+        if loc.sampling() {
+            loc.sample(what());
+        }
+        let mut r1 = CountReader::new(b);
+        let by_mode = guard(|| T::deserialize_with_mode(&mut r1, cm, vm).map_err(|_| ()));
+        let mut r2 = CountReader::new(b);
+        let by_name = guard(|| {
+            match (compress, checked) {
+                (true, true) => T::deserialize_compressed(&mut r2),
+                (true, false) => T::deserialize_compressed_unchecked(&mut r2),
+                (false, true) => T::deserialize_uncompressed(&mut r2),
+                (false, false) => T::deserialize_uncompressed_unchecked(&mut r2),
+            }
+            .map_err(|_| ())
+        });
+        match (by_mode, by_name) {
+            (Err(p), _) | (_, Err(p)) => loc.fail_at("wrappers/panic", format!("{}: {p}", what())),
+            (Ok(a), Ok(w)) => {
+                loc.check_at("wrappers/differs_from_deserialize_with_mode", a == w && r1.pos == r2.pos, || {
+                    format!("{}: {wname} returned {w:?} after {} bytes, deserialize_with_mode in that mode returned {a:?} after {} bytes", what(), r2.pos, r1.pos)
+                });
+            }
+        }
+    }
+    ctx.sweep(&format!("wrappers/{label}"), 4 * inputs.len() as u64, |i, loc| {
+        let (compress, kind, b) = &inputs[(i / 4) as usize];
+        let checked = i % 2 == 0;
+        let as_proj = i % 4 >= 2;
+        loc.class(match (*compress, checked) {
+            (true, true) => "wrapper:deserialize_compressed",
+            (true, false) => "wrapper:deserialize_compressed_unchecked",
+            (false, true) => "wrapper:deserialize_uncompressed",
+            (false, false) => "wrapper:deserialize_uncompressed_unchecked",
+        });
+        loc.class(kind);
+        if as_proj {
+            one::<G>(loc, label, "Projective", *compress, checked, kind, b)
+        } else {
+            one::<A>(loc, label, "Affine", *compress, checked, kind, b)
+        }
+    });
+}
+const WK_VALID: &str = "wrapper_input:valid_subgroup_point";
+const WK_OUTSUB: &str = "wrapper_input:outside_subgroup";
+const WK_OFF: &str = "wrapper_input:off_curve_or_no_root";
+const WK_ID: &str = "wrapper_input:identity";
+const WK_JUNK: &str = "wrapper_input:malformed";
+
+fn sw_toy_valid_trait<P: SWCurveConfig>(ctx: &mut Ctx, t: &SwToy<P>, name: &str)
+where
+    P::BaseField: PrimeField,
+    P::ScalarField: PrimeField,
+{
+    let p = t.p;
+    let zs = [1u64, 2 + (p / 3), p - 2];
+    let mut good: Vec<Member<sw::Projective<P>>> = Vec::new();
+    let mut bad: Vec<Member<sw::Projective<P>>> = Vec::new();
+    for i in 0..t.n() {
+        let is_identity = i == t.g.id;
+        let reps = if is_identity { [t.proj_identity_junk(1, 1), t.proj_identity_junk(0, 1), t.proj_identity_junk(p - 1, 3 % p)] } else { [t.proj(i, zs[0]), t.proj(i, zs[1]), t.proj(i, zs[2])] };
+        let m = Member { aff: t.aff(i), reps, kind: if t.in_subgroup[i] { 0 } else { 1 }, is_identity, label: format!("{:?}{}", t.g.pts[i], if t.in_subgroup[i] { "" } else { " (outside the subgroup)" }) };
+        if t.in_subgroup[i] {
+            good.push(m)
+        } else {
+            bad.push(m)
+        }
+    }
+    // pairs off the curve: the first six of (x, 0), (x, 1), (x, p-1), x = 0, 1, ..
+    let mut off: Vec<(u64, u64)> = Vec::new();
+    'o: for x in 0..p {
+        for y in [0, 1, p - 1] {
+            if !t.g.index.contains_key(&Pt::A(x, y)) {
+                off.push((x, y));
+                if off.len() == 6 {
+                    break 'o;
+                }
+            }
+        }
+    }
+    let f = &t.f;
+    for (x, y) in &off {
+        let rep = |z: u64| {
+            let z2 = f.mul(z, z);
+            sw::Projective::<P>::new_unchecked(t.fe(f.mul(*x, z2)), t.fe(f.mul(*y, f.mul(z2, z))), t.fe(z))
+        };
+        bad.push(Member { aff: sw::Affine::new_unchecked(t.fe(*x), t.fe(*y)), reps: [rep(zs[0]), rep(zs[1]), rep(zs[2])], kind: 2, is_identity: false, label: format!("({x},{y}) off the curve") });
+    }
+    valid_trait_batches(ctx, name, good, bad);
+    // ---- the named wrappers: model-built encodings of every curve point (both sign flags), the identity, pairs
+    // off the curve, and malformed strings
+    let m = Small::new(p, 1);
+    let mut inputs: Vec<(bool, &'static str, Vec<u8>)> = Vec::new();
+    let mut buf = [0u8; 8];
+    for (i, pt) in t.g.pts.iter().enumerate() {
+        let kind = if t.in_subgroup[i] { WK_VALID } else { WK_OUTSUB };
+        match pt {
+            Pt::O => {
+                let n = m.enc(&[0], 2, 0x40, &mut buf);
+                inputs.push((true, WK_ID, buf[..n].to_vec()));
+                let n0 = m.enc(&[0], 0, 0, &mut buf);
+                let n1 = m.enc(&[0], 2, 0x40, &mut buf[n0..]);
+                inputs.push((false, WK_ID, buf[..n0 + n1].to_vec()));
+            }
+            Pt::A(x, y) => {
+                let n = m.enc(&[*x], 2, if *y > p - *y { 0x80 } else { 0 }, &mut buf);
+                inputs.push((true, kind, buf[..n].to_vec()));
+                for mask in [0u8, 0x80] {
+                    let n0 = m.enc(&[*x], 0, 0, &mut buf);
+                    let n1 = m.enc(&[*y], 2, mask, &mut buf[n0..]);
+                    inputs.push((false, kind, buf[..n0 + n1].to_vec()));
+                }
+            }
+        }
+    }
+    for (x, y) in &off {
+        let n0 = m.enc(&[*x], 0, 0, &mut buf);
+        let n1 = m.enc(&[*y], 2, 0, &mut buf[n0..]);
+        inputs.push((false, WK_OFF, buf[..n0 + n1].to_vec()));
+    }
+    if let Some(x) = (0..p).find(|x| !t.g.pts.iter().any(|q| matches!(q, Pt::A(a, _) if a == x))) {
+        let n = m.enc(&[x], 2, 0, &mut buf);
+        inputs.push((true, WK_OFF, buf[..n].to_vec()));
+    }
+    for c in [true, false] {
+        inputs.push((c, WK_JUNK, vec![]));
+        inputs.push((c, WK_JUNK, vec![1]));
+        inputs.push((c, WK_JUNK, vec![0xff; 6]));
+        let n = m.enc(&[1], 2, 0xc0, &mut buf);
+        inputs.push((c, WK_JUNK, [&vec![0u8; if c { 0 } else { m.blen() }][..], &buf[..n]].concat()));
+    }
+    wrappers_vs_mode::<sw::Affine<P>, sw::Projective<P>>(ctx, name, &inputs);
 }
 
 fn te_toy_bytes<P: TECurveConfig>(ctx: &mut Ctx, name: &str)
@@ -882,18 +1217,103 @@ where
             if loc.sampling() {
                 loc.sample(format!("{} model class {cls:?}", what()));
             }
-            let mut rd = CountReader::new(b);
-            let res = guard(|| {
-                if as_proj {
-                    te::Projective::<P>::deserialize_with_mode(&mut rd, cm, vm).map(|q| (t.idx_proj(&q), false, (q.x, q.y, q.t, q.z))).map_err(|_| ())
-                } else {
-                    te::Affine::<P>::deserialize_with_mode(&mut rd, cm, vm).map(|a| (t.idx_aff(&a), false, (a.x, a.y, a.x * a.y, P::BaseField::one()))).map_err(|_| ())
-                }
-            });
-            let consumed = rd.pos;
-            judge_point(loc, &TE_TOY_SITES, &what, cls, checked, &|i| t.in_subgroup[i] || !complete, res, consumed, advertised);
+            let call = |input: &[u8]| {
+                let mut rd = CountReader::new(input);
+                let res = guard(|| {
+                    if as_proj {
+                        te::Projective::<P>::deserialize_with_mode(&mut rd, cm, vm).map(|q| (t.idx_proj(&q), false, (q.x, q.y, q.t, q.z))).map_err(|_| ())
+                    } else {
+                        te::Affine::<P>::deserialize_with_mode(&mut rd, cm, vm).map(|a| (t.idx_aff(&a), false, (a.x, a.y, a.x * a.y, P::BaseField::one()))).map_err(|_| ())
+                    }
+                });
+                (res, rd.pos)
+            };
+            let (res, consumed) = call(b);
+            let (eb, el) = with_trailing(b);
+            judge_point(loc, &TE_TOY_SITES, &what, cls, checked, &|i| t.in_subgroup[i] || !complete, res, consumed, advertised, len, &|| call(&eb[..el]));
         });
     }
+    te_toy_valid_trait(ctx, &t, name);
+}
+
+fn te_toy_valid_trait<P: TECurveConfig>(ctx: &mut Ctx, t: &TeToy<P>, name: &str)
+where
+    P::BaseField: PrimeField,
+    P::ScalarField: PrimeField,
+{
+    let p = t.p;
+    let zs = [1u64, 2 + (p / 3), p - 2];
+    let mut good: Vec<Member<te::Projective<P>>> = Vec::new();
+    let mut bad: Vec<Member<te::Projective<P>>> = Vec::new();
+    for i in 0..t.n() {
+        // incomplete parameters: whether a curve point outside <G> fails the r*P test is not decided by the property
+        if !t.in_subgroup[i] && !t.complete {
+            continue;
+        }
+        let m = Member {
+            aff: t.aff(i),
+            reps: [t.proj(i, zs[0]), t.proj(i, zs[1]), t.proj(i, zs[2])],
+            kind: if t.in_subgroup[i] { 0 } else { 1 },
+            is_identity: i == t.g.id,
+            label: format!("{:?}{}", t.xy(i), if t.in_subgroup[i] { "" } else { " (outside the subgroup)" }),
+        };
+        if t.in_subgroup[i] {
+            good.push(m)
+        } else {
+            bad.push(m)
+        }
+    }
+    let mut off: Vec<(u64, u64)> = Vec::new();
+    'o: for x in 0..p {
+        for y in [0, 1, 2, p - 1] {
+            if !t.m.on_curve(Pt::A(x, y)) {
+                off.push((x, y));
+                if off.len() == 6 {
+                    break 'o;
+                }
+            }
+        }
+    }
+    let f = &t.f;
+    for (x, y) in &off {
+        let rep = |z: u64| te::Projective::<P>::new_unchecked(t.fe(f.mul(*x, z)), t.fe(f.mul(*y, z)), t.fe(f.mul(f.mul(*x, *y), z)), t.fe(z));
+        bad.push(Member { aff: te::Affine::new_unchecked(t.fe(*x), t.fe(*y)), reps: [rep(zs[0]), rep(zs[1]), rep(zs[2])], kind: 2, is_identity: false, label: format!("({x},{y}) off the curve") });
+    }
+    valid_trait_batches(ctx, name, good, bad);
+    // ---- the named wrappers
+    let m = Small::new(p, 1);
+    let mut inputs: Vec<(bool, &'static str, Vec<u8>)> = Vec::new();
+    let mut buf = [0u8; 8];
+    for i in 0..t.n() {
+        let (x, y) = t.xy(i);
+        let kind = if i == t.g.id {
+            WK_ID
+        } else if t.in_subgroup[i] {
+            WK_VALID
+        } else {
+            WK_OUTSUB
+        };
+        let n = m.enc(&[y], 1, if x > p - x { 0x80 } else { 0 }, &mut buf);
+        inputs.push((true, kind, buf[..n].to_vec()));
+        let n0 = m.enc(&[x], 0, 0, &mut buf);
+        let n1 = m.enc(&[y], 0, 0, &mut buf[n0..]);
+        inputs.push((false, kind, buf[..n0 + n1].to_vec()));
+    }
+    for (x, y) in &off {
+        let n0 = m.enc(&[*x], 0, 0, &mut buf);
+        let n1 = m.enc(&[*y], 0, 0, &mut buf[n0..]);
+        inputs.push((false, WK_OFF, buf[..n0 + n1].to_vec()));
+    }
+    if let Some(y) = (0..p).find(|y| !(0..t.n()).any(|i| t.xy(i).1 == *y)) {
+        let n = m.enc(&[y], 1, 0, &mut buf);
+        inputs.push((true, WK_OFF, buf[..n].to_vec()));
+    }
+    for c in [true, false] {
+        inputs.push((c, WK_JUNK, vec![]));
+        inputs.push((c, WK_JUNK, vec![1]));
+        inputs.push((c, WK_JUNK, vec![0xff; 6]));
+    }
+    wrappers_vs_mode::<te::Affine<P>, te::Projective<P>>(ctx, name, &inputs);
 }
 
 // ------------------------------------------------------------------------------------------
@@ -1102,7 +1522,15 @@ where
         }
     }
 }
-const SW_EXT_SITES: [&str; 5] = ["sw_ext_toy/read_past_advertised_size", "sw_ext_toy/panic", "sw_ext_toy/checked_returns_invalid_point", "sw_ext_toy/checked_accepts_bad_encoding", "sw_ext_toy/infinity_flag_returns_non_identity"];
+const SW_EXT_SITES: [&str; 7] = [
+    "sw_ext_toy/read_past_advertised_size",
+    "sw_ext_toy/panic",
+    "sw_ext_toy/checked_returns_invalid_point",
+    "sw_ext_toy/checked_accepts_bad_encoding",
+    "sw_ext_toy/infinity_flag_returns_non_identity",
+    "sw_ext_toy/trailing_bytes/read_past_advertised_size",
+    "sw_ext_toy/trailing_bytes/result_changes",
+];
 
 fn sw_ext_bytes<P: SWCurveConfig>(ctx: &mut Ctx, name: &str, f: Fp2Model)
 where
@@ -1111,6 +1539,42 @@ where
     let Some(t) = ExtToy::<P>::new(ctx, name, f) else { return };
     let t = &t;
     let p = f.p;
+    if t.h > 1 {
+        // (V) Valid::check / batch_check on batches with invalid members (see valid_trait_batches)
+        let zs = [(1u64, 0u64), (2, 1), (0, p - 2)];
+        let rep = |x: (u64, u64), y: (u64, u64), z: (u64, u64)| {
+            let z2 = f.sq(z);
+            sw::Projective::<P>::new_unchecked(ExtToy::<P>::fe(f.mul(x, z2)), ExtToy::<P>::fe(f.mul(y, f.mul(z2, z))), ExtToy::<P>::fe(z))
+        };
+        let idj = |x: (u64, u64), y: (u64, u64)| sw::Projective::<P>::new_unchecked(ExtToy::<P>::fe(x), ExtToy::<P>::fe(y), ExtToy::<P>::fe((0, 0)));
+        let mut good: Vec<Member<sw::Projective<P>>> = Vec::new();
+        let mut bad: Vec<Member<sw::Projective<P>>> = Vec::new();
+        for (i, pt) in t.g.pts.iter().enumerate() {
+            let (aff, reps) = match pt {
+                Pt::O => (sw::Affine::<P>::identity(), [idj((1, 0), (1, 0)), idj((0, 0), (1, 1)), idj((p - 1, 2), (3 % p, 0))]),
+                Pt::A(x, y) => (sw::Affine::<P>::new_unchecked(ExtToy::<P>::fe(*x), ExtToy::<P>::fe(*y)), [rep(*x, *y, zs[0]), rep(*x, *y, zs[1]), rep(*x, *y, zs[2])]),
+            };
+            let m = Member { aff, reps, kind: if t.in_subgroup[i] { 0 } else { 1 }, is_identity: i == t.g.id, label: format!("{pt:?}{}", if t.in_subgroup[i] { "" } else { " (outside the subgroup)" }) };
+            if t.in_subgroup[i] {
+                good.push(m)
+            } else {
+                bad.push(m)
+            }
+        }
+        let mut n_off = 0;
+        'o: for x in f.elements() {
+            for y in [(0, 0), (1, 0), (0, 1), (p - 1, p - 1)] {
+                if !t.g.index.contains_key(&Pt::A(x, y)) {
+                    bad.push(Member { aff: sw::Affine::<P>::new_unchecked(ExtToy::<P>::fe(x), ExtToy::<P>::fe(y)), reps: [rep(x, y, zs[0]), rep(x, y, zs[1]), rep(x, y, zs[2])], kind: 2, is_identity: false, label: format!("({x:?},{y:?}) off the curve") });
+                    n_off += 1;
+                    if n_off == 6 {
+                        break 'o;
+                    }
+                }
+            }
+        }
+        valid_trait_batches(ctx, name, good, bad);
+    }
     let m = Small::new(p, 2);
     let (xlen, plen) = (m.total(0), m.total(2)); // x without flags; last coordinate with the 2 SW flag bits
     let beta_minus_one = f.beta == p - 1;
@@ -1136,16 +1600,20 @@ where
         if loc.sampling() {
             loc.sample(format!("{} model class {cls:?}", what()));
         }
-        let mut rd = CountReader::new(b);
-        let res = guard(|| {
-            if as_proj {
-                sw::Projective::<P>::deserialize_with_mode(&mut rd, cm, vm).map(|q| (t.idx_proj(&q), q.z.is_zero(), (q.x, q.y, q.z))).map_err(|_| ())
-            } else {
-                sw::Affine::<P>::deserialize_with_mode(&mut rd, cm, vm).map(|a| (t.idx_aff(&a), a.infinity, (a.x, a.y, P::BaseField::from(!a.infinity)))).map_err(|_| ())
-            }
-        });
-        let consumed = rd.pos;
-        judge_point(loc, &SW_EXT_SITES, &what, cls, checked, &|i| t.in_subgroup[i], res, consumed, advertised);
+        let call = |input: &[u8]| {
+            let mut rd = CountReader::new(input);
+            let res = guard(|| {
+                if as_proj {
+                    sw::Projective::<P>::deserialize_with_mode(&mut rd, cm, vm).map(|q| (t.idx_proj(&q), q.z.is_zero(), (q.x, q.y, q.z))).map_err(|_| ())
+                } else {
+                    sw::Affine::<P>::deserialize_with_mode(&mut rd, cm, vm).map(|a| (t.idx_aff(&a), a.infinity, (a.x, a.y, P::BaseField::from(!a.infinity)))).map_err(|_| ())
+                }
+            });
+            (res, rd.pos)
+        };
+        let (res, consumed) = call(b);
+        let (eb, el) = with_trailing(b);
+        judge_point(loc, &SW_EXT_SITES, &what, cls, checked, &|i| t.in_subgroup[i], res, consumed, advertised, len, &|| call(&eb[..el]));
     };
     // ---- compressed: every byte string of every length 0..=2
     {
@@ -1313,6 +1781,426 @@ where
 }
 
 // ------------------------------------------------------------------------------------------
+// (E3) ONE toy short-Weierstrass curve over a CUBIC extension field, F_343 = F_7[u]/(u^3 - 2):
+// y^2 = x^3 + u x + (1 + u + u^2), 366 = 6 * 61 points (= SwC7A of c03.rs).  Decompression takes
+// the square root with CubicExtField::sqrt (generic Tonelli-Shanks on the Fp3Config constants), the
+// sign flag compares y with -y through CubicExtField::cmp (c2 first, then c1, then c0).
+// Format model read off ff/src/fields/models/cubic_extension.rs: c0, c1 as plain base-field
+// elements, then c2 carrying the flag bits in the top bits of its last byte.
+// Compressed encoding = 3 bytes: every byte string of every length 0..=3 is offered.
+// ------------------------------------------------------------------------------------------
+/// F_p[u]/(u^3 - beta), elements (c0, c1, c2), schoolbook (same model as c03.rs)
+#[derive(Clone, Copy, Debug)]
+struct Fp3Model {
+    p: u64,
+    beta: u64,
+}
+impl FieldModel for Fp3Model {
+    type E = (u64, u64, u64);
+    fn zero(&self) -> Self::E {
+        (0, 0, 0)
+    }
+    fn one(&self) -> Self::E {
+        (1, 0, 0)
+    }
+    fn add(&self, a: Self::E, b: Self::E) -> Self::E {
+        ((a.0 + b.0) % self.p, (a.1 + b.1) % self.p, (a.2 + b.2) % self.p)
+    }
+    fn sub(&self, a: Self::E, b: Self::E) -> Self::E {
+        let p = self.p;
+        ((a.0 + p - b.0) % p, (a.1 + p - b.1) % p, (a.2 + p - b.2) % p)
+    }
+    fn neg(&self, a: Self::E) -> Self::E {
+        let p = self.p;
+        ((p - a.0) % p, (p - a.1) % p, (p - a.2) % p)
+    }
+    fn mul(&self, a: Self::E, b: Self::E) -> Self::E {
+        let (p, be) = (self.p, self.beta);
+        let c0 = (a.0 * b.0 + be * ((a.1 * b.2 + a.2 * b.1) % p)) % p;
+        let c1 = (a.0 * b.1 + a.1 * b.0 + be * (a.2 * b.2 % p)) % p;
+        let c2 = (a.0 * b.2 + a.1 * b.1 + a.2 * b.0) % p;
+        (c0, c1, c2)
+    }
+    fn inv(&self, a: Self::E) -> Self::E {
+        assert!(a != (0, 0, 0), "model: inverse of zero");
+        self.pow(a, self.p * self.p * self.p - 2)
+    }
+    fn from_u64(&self, x: u64) -> Self::E {
+        (x % self.p, 0, 0)
+    }
+    fn elements(&self) -> Vec<Self::E> {
+        let p = self.p;
+        let mut v = Vec::with_capacity((p * p * p) as usize);
+        for c2 in 0..p {
+            for c1 in 0..p {
+                for c0 in 0..p {
+                    v.push((c0, c1, c2));
+                }
+            }
+        }
+        v
+    }
+    fn order(&self) -> u64 {
+        self.p * self.p * self.p
+    }
+}
+ext_sw!(
+    SwC7AuB111,
+    F7x3,
+    D61,
+    6,
+    "51",
+    F7x3::new(MontFp!("0"), MontFp!("1"), MontFp!("0")),
+    F7x3::new(MontFp!("1"), MontFp!("1"), MontFp!("1")),
+    F7x3::new(MontFp!("0"), MontFp!("1"), MontFp!("0")),
+    F7x3::new(MontFp!("0"), MontFp!("3"), MontFp!("2"))
+);
+type E3 = (u64, u64, u64);
+struct Ext3Toy<P: SWCurveConfig> {
+    f: Fp3Model,
+    m: SwModel<Fp3Model>,
+    g: GroupTable<E3>,
+    r: u64,
+    h: u64,
+    in_subgroup: Vec<bool>,
+    /// per x (index c0 + p c1 + p^2 c2): the points (y, oracle index) with that x
+    by_x: Vec<Vec<(E3, usize)>>,
+    _p: std::marker::PhantomData<P>,
+}
+impl<P: SWCurveConfig> Ext3Toy<P>
+where
+    P::ScalarField: PrimeField,
+{
+    fn fe(e: E3) -> P::BaseField {
+        small_from::<P::BaseField>(&[e.0, e.1, e.2])
+    }
+    fn co(x: &P::BaseField) -> E3 {
+        let c = small_coeffs(x);
+        (c[0], c[1], c[2])
+    }
+    fn xi(&self, x: E3) -> usize {
+        let p = self.f.p;
+        (x.0 + p * x.1 + p * p * x.2) as usize
+    }
+    fn new(ctx: &mut Ctx, name: &str, f: Fp3Model) -> Option<Self> {
+        let p = f.p;
+        let sm = Small::of::<P::BaseField>();
+        ctx.validate(sm.p == p && sm.d == 3 && is_prime_small(p), &format!("{name}: base field is a cubic extension of the prime field F_{p}"));
+        ctx.validate(p % 3 == 1 && powmod(f.beta, (p - 1) / 3, p) != 1, &format!("{name}: beta = {} is a cubic non-residue of F_{p}", f.beta));
+        ctx.validate(Self::fe((0, 1, 0)) * Self::fe((0, 0, 1)) == Self::fe((f.beta, 0, 0)), &format!("{name}: u^3 = beta in the library field"));
+        let els = f.elements();
+        let probe = [els[1], els[els.len() - 1], els[els.len() / 2 + 3], (0, 1, 0), (p - 1, 2, 3), (0, 0, 1)];
+        for a in probe {
+            for b in probe {
+                ctx.validate(Self::co(&(Self::fe(a) * Self::fe(b))) == f.mul(a, b) && Self::co(&(Self::fe(a) + Self::fe(b))) == f.add(a, b), &format!("{name}: field bridge on {a:?},{b:?}"));
+            }
+        }
+        let m = SwModel { f, a: Self::co(&P::COEFF_A), b: Self::co(&P::COEFF_B) };
+        let disc = f.add(f.mul(f.from_u64(4), f.mul(m.a, f.sq(m.a))), f.mul(f.from_u64(27), f.sq(m.b)));
+        ctx.validate(!f.is_zero(disc), &format!("{name}: discriminant non-zero"));
+        let pts = m.points();
+        let n = pts.len() as u64;
+        let q = f.order();
+        let mm = m.clone();
+        let g = GroupTable::build(pts, Pt::O, move |a, b| Some(mm.add(a, b)));
+        let rl = <P::ScalarField as PrimeField>::MODULUS;
+        let r = rl.as_ref()[0];
+        ctx.validate(rl.as_ref()[1..].iter().all(|x| *x == 0) && P::COFACTOR.len() == 1, &format!("{name}: r and h fit one limb"));
+        let h = P::COFACTOR[0];
+        let d = n as i64 - (q as i64 + 1);
+        ctx.validate((d * d) as u64 <= 4 * q, &format!("{name}: Hasse bound, #E={n} q={q}"));
+        ctx.validate(is_prime_small(r) && n == h * r && h % r != 0 && h > 1, &format!("{name}: #E = {n} = h*r = {h}*{r}, r prime, r does not divide h, h > 1"));
+        let gen_pt = Pt::A(Self::co(&P::GENERATOR.x), Self::co(&P::GENERATOR.y));
+        let Some(gen) = g.index.get(&gen_pt).copied() else {
+            ctx.validate(false, &format!("{name}: generator on the curve"));
+            return None;
+        };
+        ctx.validate(g.order(gen) == Some(r), &format!("{name}: generator has order r"));
+        let hinv = prime_to_u64(&P::COFACTOR_INV);
+        ctx.validate((hinv * h) % r == 1 % r, &format!("{name}: COFACTOR_INV = {hinv} inverts h = {h} mod r = {r}"));
+        let k = g.n().min(12);
+        let mut ok = true;
+        for a in 0..k {
+            for b in 0..k {
+                for c in 0..k {
+                    ok &= g.add[g.add[a][b]][c] == g.add[a][g.add[b][c]];
+                }
+            }
+        }
+        ctx.validate(ok, &format!("{name}: oracle law associative"));
+        let in_subgroup: Vec<bool> = (0..g.n()).map(|i| g.mul(r, i) == Some(g.id)).collect();
+        ctx.validate(in_subgroup.iter().filter(|b| **b).count() as u64 == r, &format!("{name}: subgroup has r elements"));
+        ctx.validate(in_subgroup.iter().any(|b| !*b), &format!("{name}: points outside the subgroup exist"));
+        let mut by_x: Vec<Vec<(E3, usize)>> = vec![Vec::new(); q as usize];
+        for (i, pt) in g.pts.iter().enumerate() {
+            if let Pt::A(x, y) = pt {
+                by_x[(x.0 + p * x.1 + p * p * x.2) as usize].push((*y, i));
+            }
+        }
+        Some(Ext3Toy { f, m, g, r, h, in_subgroup, by_x, _p: std::marker::PhantomData })
+    }
+    fn idx_aff(&self, a: &sw::Affine<P>) -> Option<usize> {
+        if a.infinity {
+            return Some(self.g.id);
+        }
+        self.g.index.get(&Pt::A(Self::co(&a.x), Self::co(&a.y))).copied()
+    }
+    /// decodes X/Z^2, Y/Z^3 with MODEL arithmetic
+    fn idx_proj(&self, q: &sw::Projective<P>) -> Option<usize> {
+        let (x, y, z) = (Self::co(&q.x), Self::co(&q.y), Self::co(&q.z));
+        if z == (0, 0, 0) {
+            return Some(self.g.id);
+        }
+        let f = &self.f;
+        let zi = f.inv(z);
+        let zi2 = f.sq(zi);
+        self.g.index.get(&Pt::A(f.mul(x, zi2), f.mul(y, f.mul(zi2, zi)))).copied()
+    }
+    /// the root selected by the sign flag: 0x80 = the larger of {y, -y} in the order (c2, then c1, then c0)
+    fn pick(&self, x: E3, fm: u8) -> Option<(E3, usize)> {
+        let ys = &self.by_x[self.xi(x)];
+        let key = |e: &&(E3, usize)| (e.0 .2, e.0 .1, e.0 .0);
+        if fm == 0x80 {
+            ys.iter().max_by_key(key).copied()
+        } else {
+            ys.iter().min_by_key(key).copied()
+        }
+    }
+}
+const SW_EXT3_SITES: [&str; 7] = [
+    "sw_ext3_toy/read_past_advertised_size",
+    "sw_ext3_toy/panic",
+    "sw_ext3_toy/checked_returns_invalid_point",
+    "sw_ext3_toy/checked_accepts_bad_encoding",
+    "sw_ext3_toy/infinity_flag_returns_non_identity",
+    "sw_ext3_toy/trailing_bytes/read_past_advertised_size",
+    "sw_ext3_toy/trailing_bytes/result_changes",
+];
+
+fn sw_ext3_bytes<P: SWCurveConfig>(ctx: &mut Ctx, name: &str, f: Fp3Model)
+where
+    P::ScalarField: PrimeField,
+{
+    let Some(t) = Ext3Toy::<P>::new(ctx, name, f) else { return };
+    let t = &t;
+    let p = f.p;
+    let m = Small::new(p, 3);
+    let (xlen, plen) = (m.total(0), m.total(2));
+    // ---- (V) Valid::check / batch_check on batches with invalid members
+    {
+        let zs = [(1u64, 0u64, 0u64), (2, 1, 0), (0, p - 2, 3)];
+        let rep = |x: E3, y: E3, z: E3| {
+            let z2 = f.sq(z);
+            sw::Projective::<P>::new_unchecked(Ext3Toy::<P>::fe(f.mul(x, z2)), Ext3Toy::<P>::fe(f.mul(y, f.mul(z2, z))), Ext3Toy::<P>::fe(z))
+        };
+        let idj = |x: E3, y: E3| sw::Projective::<P>::new_unchecked(Ext3Toy::<P>::fe(x), Ext3Toy::<P>::fe(y), Ext3Toy::<P>::fe((0, 0, 0)));
+        let mut good: Vec<Member<sw::Projective<P>>> = Vec::new();
+        let mut bad: Vec<Member<sw::Projective<P>>> = Vec::new();
+        for (i, pt) in t.g.pts.iter().enumerate() {
+            let (aff, reps) = match pt {
+                Pt::O => (sw::Affine::<P>::identity(), [idj((1, 0, 0), (1, 0, 0)), idj((0, 0, 0), (1, 1, 1)), idj((p - 1, 2, 0), (3 % p, 0, 5 % p))]),
+                Pt::A(x, y) => (sw::Affine::<P>::new_unchecked(Ext3Toy::<P>::fe(*x), Ext3Toy::<P>::fe(*y)), [rep(*x, *y, zs[0]), rep(*x, *y, zs[1]), rep(*x, *y, zs[2])]),
+            };
+            let mb = Member { aff, reps, kind: if t.in_subgroup[i] { 0 } else { 1 }, is_identity: i == t.g.id, label: format!("{pt:?}{}", if t.in_subgroup[i] { "" } else { " (outside the subgroup)" }) };
+            if t.in_subgroup[i] {
+                good.push(mb)
+            } else {
+                bad.push(mb)
+            }
+        }
+        let mut n_off = 0;
+        'o: for x in f.elements() {
+            for y in [(0, 0, 0), (1, 0, 0), (0, 1, 0), (0, 0, 1), (p - 1, p - 1, p - 1)] {
+                if !t.g.index.contains_key(&Pt::A(x, y)) {
+                    bad.push(Member { aff: sw::Affine::<P>::new_unchecked(Ext3Toy::<P>::fe(x), Ext3Toy::<P>::fe(y)), reps: [rep(x, y, zs[0]), rep(x, y, zs[1]), rep(x, y, zs[2])], kind: 2, is_identity: false, label: format!("({x:?},{y:?}) off the curve") });
+                    n_off += 1;
+                    if n_off == 6 {
+                        break 'o;
+                    }
+                }
+            }
+        }
+        valid_trait_batches(ctx, name, good, bad);
+    }
+    let run = |loc: &mut Loc, b: &[u8], cls: Cls, compress: bool, vt: u64, advertised: usize| {
+        let checked = vt & 1 == 0;
+        let as_proj = vt & 2 != 0;
+        let cm = if compress { Compress::Yes } else { Compress::No };
+        let vm = if checked { Validate::Yes } else { Validate::No };
+        let len = b.len();
+        cls.label(loc, len);
+        match cls {
+            Cls::Valid(_) => loc.class("ext3:valid_subgroup_point"),
+            Cls::OutSub(_) => loc.class("ext3:out_of_subgroup_rejected"),
+            Cls::OffCurve => loc.class("ext3:off_curve_rejected"),
+            Cls::NoSqrt => loc.class("ext3:no_sqrt"),
+            Cls::BadInt => loc.class("ext3:field_int>=p"),
+            Cls::BadFlags => loc.class("ext3:flags_11"),
+            Cls::Identity => loc.class("ext3:identity_encoding"),
+            Cls::InfinityJunk => loc.class("ext3:infinity_flag_with_nonzero_x"),
+            Cls::Trunc => loc.class("ext3:truncated"),
+            _ => {}
+        }
+        let what = || format!("{name} {} {} as {} input {} ({len} bytes)", if compress { "compressed" } else { "uncompressed" }, if checked { "checked" } else { "unchecked" }, if as_proj { "Projective" } else { "Affine" }, hex(b));
+        if loc.sampling() {
+            loc.sample(format!("{} model class {cls:?}", what()));
+        }
+        // (the third component only makes the Affine and Projective results the same type; `BaseField::from(bool)` is not
+        // used here: CubicExtField's From<bool> calls itself and never returns - ff/src/fields/models/cubic_extension.rs)
+        let call = |input: &[u8]| {
+            let mut rd = CountReader::new(input);
+            let res = guard(|| {
+                if as_proj {
+                    sw::Projective::<P>::deserialize_with_mode(&mut rd, cm, vm).map(|q| (t.idx_proj(&q), q.z.is_zero(), (q.x, q.y, q.z))).map_err(|_| ())
+                } else {
+                    sw::Affine::<P>::deserialize_with_mode(&mut rd, cm, vm).map(|a| (t.idx_aff(&a), a.infinity, (a.x, a.y, if a.infinity { P::BaseField::zero() } else { P::BaseField::one() }))).map_err(|_| ())
+                }
+            });
+            (res, rd.pos)
+        };
+        let (res, consumed) = call(b);
+        let (eb, el) = with_trailing(b);
+        judge_point(loc, &SW_EXT3_SITES, &what, cls, checked, &|i| t.in_subgroup[i], res, consumed, advertised, len, &|| call(&eb[..el]));
+    };
+    // ---- compressed: every byte string of every length 0..=3
+    {
+        let advertised = sw::Affine::<P>::identity().serialized_size(Compress::Yes);
+        let max_len = plen.max(advertised);
+        if max_len != 3 {
+            ctx.machinery_error(format!("{name}: compressed encoding of {max_len} bytes (model {plen}, advertised {advertised}); the sweep is written for 3"));
+            return;
+        }
+        let ns = count_strings(max_len);
+        ctx.sweep(&format!("bytes_ext3_toy/{name}/compressed"), ns * 4, |i, loc| {
+            let [is, vt] = unrank(i, [ns, 4]);
+            let (len, bytes) = nth_string(is);
+            let b = &bytes[..len];
+            let cls = if len < plen {
+                Cls::Trunc
+            } else {
+                match m.dec::<SWFlags>(b) {
+                    SDec::Short => Cls::Trunc,
+                    SDec::BadFlags => Cls::BadFlags,
+                    SDec::Stray | SDec::GeP => {
+                        loc.class_if(b[0] as u64 >= p, "ext3:field_int>=p_in_c0");
+                        loc.class_if(b[1] as u64 >= p, "ext3:field_int>=p_in_c1");
+                        loc.class_if((b[2] & !topmask(2)) as u64 >= p, "ext3:field_int>=p_in_c2");
+                        Cls::BadInt
+                    }
+                    SDec::Ok(c, 0x40) => {
+                        if c[0] == 0 && c[1] == 0 && c[2] == 0 {
+                            Cls::Identity
+                        } else {
+                            Cls::InfinityJunk
+                        }
+                    }
+                    SDec::Ok(c, fm) => {
+                        let x = (c[0], c[1], c[2]);
+                        loc.class_if(t.m.rhs(x) == (0, 0, 0), "ext3:rhs=0");
+                        match t.pick(x, fm) {
+                            None => Cls::NoSqrt,
+                            Some((y, i)) => {
+                                loc.class_if(y.2 != 0, "ext3:y_sign_decided_by_c2");
+                                loc.class_if(y.2 == 0 && y.1 != 0, "ext3:y_sign_decided_by_c1");
+                                loc.class_if(y.2 == 0 && y.1 == 0 && y.0 != 0, "ext3:y_sign_decided_by_c0");
+                                loc.class_if(y == (0, 0, 0), "ext3:y=0_tie");
+                                loc.class_if(fm == 0x80, "ext3:sign_flag_set");
+                                if t.in_subgroup[i] {
+                                    Cls::Valid(i)
+                                } else {
+                                    Cls::OutSub(i)
+                                }
+                            }
+                        }
+                    }
+                }
+            };
+            run(loc, b, cls, true, vt, advertised);
+        });
+    }
+    // ---- uncompressed (2 * 3 bytes)
+    let ulen = xlen + plen;
+    let advertised_u = sw::Affine::<P>::identity().serialized_size(Compress::No);
+    if ulen.max(advertised_u) != 6 {
+        ctx.machinery_error(format!("{name}: uncompressed encoding of {} bytes; the sweep is written for 6", ulen.max(advertised_u)));
+        return;
+    }
+    let classify_u = |loc: &mut Loc, b: &[u8]| -> Cls {
+        if b.len() < ulen {
+            return Cls::Trunc;
+        }
+        match (m.dec::<EmptyFlags>(&b[..xlen]), m.dec::<SWFlags>(&b[xlen..])) {
+            (_, SDec::BadFlags) => Cls::BadFlags,
+            (SDec::Ok(cx, _), SDec::Ok(cy, fm)) => {
+                let (x, y) = ((cx[0], cx[1], cx[2]), (cy[0], cy[1], cy[2]));
+                if fm == 0x40 {
+                    if x == (0, 0, 0) && y == (0, 0, 0) {
+                        Cls::Identity
+                    } else {
+                        Cls::InfinityJunk
+                    }
+                } else {
+                    match t.g.index.get(&Pt::A(x, y)) {
+                        None => Cls::OffCurve,
+                        Some(i) if t.in_subgroup[*i] => Cls::Valid(*i),
+                        Some(i) => Cls::OutSub(*i),
+                    }
+                }
+            }
+            (dx, _) => {
+                loc.class_if(!matches!(dx, SDec::Ok(..)), "ext3:field_int>=p_in_x");
+                loc.class_if(matches!(dx, SDec::Ok(..)), "ext3:field_int>=p_in_y");
+                Cls::BadInt
+            }
+        }
+    };
+    // (U1) every pair of canonical coordinates x every pattern of the two flag bits (model-built bytes)
+    let q = f.order();
+    let p2 = p * p;
+    ctx.sweep(&format!("bytes_ext3_toy/{name}/uncompressed_canonical_xy"), q * q * 4 * 4, |i, loc| {
+        let [ix, iy, ifl, vt] = unrank(i, [q, q, 4, 4]);
+        let mut bytes = [0u8; 8];
+        let n0 = m.enc(&[ix % p, ix / p % p, ix / p2], 0, 0, &mut bytes);
+        let n1 = m.enc(&[iy % p, iy / p % p, iy / p2], 2, (ifl << 6) as u8, &mut bytes[n0..]);
+        let b = &bytes[..n0 + n1];
+        let cls = classify_u(loc, b);
+        run(loc, b, cls, false, vt, advertised_u);
+    });
+    // (U2) raw byte strings: every string of length 0..=2 (truncated), and the canonical encoding of every curve point
+    // with ONE byte replaced by every value (non-canonical coefficients in every slot, all flag patterns) and cut at every length
+    let n_short = count_strings(2);
+    let npts = t.g.n() as u64;
+    ctx.bound(&format!("bytes_ext3_toy/{name}/uncompressed_bytes"), "all strings of length 0..=2; the 6-byte encoding of every point of the curve with one byte (every position) replaced by every value, and every proper prefix of it");
+    ctx.sweep(&format!("bytes_ext3_toy/{name}/uncompressed_bytes"), (n_short + npts * (6 * 256 + 6)) * 4, |i, loc| {
+        let [is, vt] = unrank(i, [n_short + npts * (6 * 256 + 6), 4]);
+        let mut bytes = [0u8; 8];
+        let len = if is < n_short {
+            let (len, s) = nth_string(is);
+            bytes = s;
+            len
+        } else {
+            let j = is - n_short;
+            let (ip, k) = ((j / (6 * 256 + 6)) as usize, j % (6 * 256 + 6));
+            let (x, y) = match t.g.pts[ip] {
+                Pt::O => ((0, 0, 0), (0, 0, 0)),
+                Pt::A(x, y) => (x, y),
+            };
+            let n0 = m.enc(&[x.0, x.1, x.2], 0, 0, &mut bytes);
+            m.enc(&[y.0, y.1, y.2], 2, if ip == t.g.id { 0x40 } else { 0 }, &mut bytes[n0..]);
+            if k < 6 * 256 {
+                bytes[(k / 256) as usize] = (k % 256) as u8;
+                6
+            } else {
+                (k - 6 * 256) as usize
+            }
+        };
+        let b = &bytes[..len];
+        let cls = classify_u(loc, b);
+        run(loc, b, cls, false, vt, advertised_u);
+    });
+}
+
+// ------------------------------------------------------------------------------------------
 // (E) field elements: every byte string of the element length and shorter
 // ------------------------------------------------------------------------------------------
 /// Ok(v) must be canonical: every base-prime-field coefficient has raw (Montgomery) limbs < p and
@@ -1351,7 +2239,8 @@ where
             }
             (ok, c)
         };
-        let judge = |loc: &mut Loc, sites: &[&str; 3], res: Result<Result<E, ()>, String>, consumed: usize| {
+        // `again` = the same call on `b ++ [0xA5, 0x5A]`, run when `b` itself is accepted (see judge_point)
+        let judge = |loc: &mut Loc, sites: &[&str; 6], res: Result<Result<E, ()>, String>, consumed: usize, again: &dyn Fn() -> (Result<Result<E, ()>, String>, usize)| {
             loc.check_at(sites[0], consumed <= total, || format!("{name}/{} input {}: consumed {consumed} > {total}", Fl::NAME, hex(b)));
             match res {
                 Err(p) => loc.fail_at(sites[1], format!("{name}/{} input {}: {p}", Fl::NAME, hex(b))),
@@ -1362,24 +2251,57 @@ where
                         SDec::Ok(wc, _) => Some(wc),
                         _ => None,
                     };
-                    loc.check_at(sites[2], raw_ok && want_c == Some(c), || {
-                        format!("{name}/{} input {} (model {want:?}) returned coefficients {:?} (raw limbs below p: {raw_ok})", Fl::NAME, hex(b), &c[..m.d])
-                    });
+                    // the property's own words: the returned element is below the modulus (every coefficient's stored limbs)
+                    loc.check_at(sites[2], raw_ok, || format!("{name}/{} input {} (model {want:?}) returned coefficients {:?} whose stored limbs are not all below p", Fl::NAME, hex(b), &c[..m.d]));
+                    // more than C10 says, kept under its own name: the element is the one the bytes denote (a decoder
+                    // returning another value is wrong under C09's round trip / uniqueness anyway)
+                    loc.check_at(sites[3], want_c == Some(c), || format!("{name}/{} input {} (model {want:?}) returned coefficients {:?}", Fl::NAME, hex(b), &c[..m.d]));
+                    loc.class("accepted_input_fed_again_with_trailing_bytes");
+                    let (res2, consumed2) = again();
+                    loc.check_at(sites[4], consumed2 <= total && consumed2 == len, || format!("{name}/{} input {} followed by a55a: consumed {consumed2} bytes; the accepted input has {len}, the advertised size is {total}", Fl::NAME, hex(b)));
+                    match res2 {
+                        Err(p) => loc.fail_at(sites[1], format!("{name}/{} input {} followed by a55a: {p}", Fl::NAME, hex(b))),
+                        Ok(Err(())) => loc.fail_at(sites[5], format!("{name}/{} input {}: accepted, but rejected when followed by a55a", Fl::NAME, hex(b))),
+                        Ok(Ok(v2)) => {
+                            loc.check_at(sites[5], v2 == v, || format!("{name}/{} input {}: returned {:?}, but {:?} when followed by a55a", Fl::NAME, hex(b), &c[..m.d], &canonical(&v2).1[..m.d]));
+                        }
+                    }
                 }
             }
         };
-        const WF: [&str; 3] = ["field/deserialize_with_flags/read_past_advertised_size", "field/deserialize_with_flags/panic", "field/deserialize_with_flags/returned_element_not_below_modulus"];
-        const WM: [&str; 3] = ["field/deserialize_with_mode/read_past_advertised_size", "field/deserialize_with_mode/panic", "field/deserialize_with_mode/returned_element_not_below_modulus"];
-        let mut rd = CountReader::new(b);
-        let res = guard(|| E::deserialize_with_flags::<_, Fl>(&mut rd).map(|(v, _)| v).map_err(|_| ()));
-        let pos = rd.pos;
-        judge(loc, &WF, res, pos);
+        const WF: [&str; 6] = [
+            "field/deserialize_with_flags/read_past_advertised_size",
+            "field/deserialize_with_flags/panic",
+            "field/deserialize_with_flags/returned_element_not_below_modulus",
+            "field/deserialize_with_flags/field_value",
+            "field/deserialize_with_flags/trailing_bytes/read_past_advertised_size",
+            "field/deserialize_with_flags/trailing_bytes/result_changes",
+        ];
+        const WM: [&str; 6] = [
+            "field/deserialize_with_mode/read_past_advertised_size",
+            "field/deserialize_with_mode/panic",
+            "field/deserialize_with_mode/returned_element_not_below_modulus",
+            "field/deserialize_with_mode/field_value",
+            "field/deserialize_with_mode/trailing_bytes/read_past_advertised_size",
+            "field/deserialize_with_mode/trailing_bytes/result_changes",
+        ];
+        let (eb, el) = with_trailing(b);
+        let with_flags = |input: &[u8]| {
+            let mut rd = CountReader::new(input);
+            let res = guard(|| E::deserialize_with_flags::<_, Fl>(&mut rd).map(|(v, _)| v).map_err(|_| ()));
+            (res, rd.pos)
+        };
+        let (res, pos) = with_flags(b);
+        judge(loc, &WF, res, pos, &|| with_flags(&eb[..el]));
         if nb == 0 {
             for (cm, vm) in MODES.iter() {
-                let mut rd = CountReader::new(b);
-                let res = guard(|| E::deserialize_with_mode(&mut rd, *cm, *vm).map_err(|_| ()));
-                let pos = rd.pos;
-                judge(loc, &WM, res, pos);
+                let with_mode = |input: &[u8]| {
+                    let mut rd = CountReader::new(input);
+                    let res = guard(|| E::deserialize_with_mode(&mut rd, *cm, *vm).map_err(|_| ()));
+                    (res, rd.pos)
+                };
+                let (res, pos) = with_mode(b);
+                judge(loc, &WM, res, pos, &|| with_mode(&eb[..el]));
             }
         }
     });
@@ -1552,12 +2474,16 @@ enum Known {
     IntGeP,
     Flags11,
     InfinityNonzeroX,
+    /// hand-built string for the zcash readers: only the generic rules apply
+    HandBuilt,
     /// mutated input: only the generic rules apply
     Mutated,
 }
 impl Known {
+    /// (a coordinate integer >= p / an illegal flag pattern in a POINT encoding is not named by C10: "an error or a valid
+    /// group element" is what is demanded there - see Cls::may_accept_checked)
     fn must_reject_checked(&self) -> bool {
-        matches!(self, Known::OutOfSubgroup | Known::SmallOrder | Known::OffCurve | Known::NoSqrt | Known::IntGeP | Known::Flags11)
+        matches!(self, Known::OutOfSubgroup | Known::SmallOrder | Known::OffCurve | Known::NoSqrt)
     }
     fn label(&self, loc: &mut Loc) {
         match self {
@@ -1573,6 +2499,7 @@ impl Known {
             Known::IntGeP => loc.class("field_int>=p"),
             Known::Flags11 => loc.class("flags_11"),
             Known::InfinityNonzeroX => loc.class("infinity_flag_with_nonzero_x"),
+            Known::HandBuilt => loc.class("zcash:hand_built_string"),
             Known::Mutated => {}
         }
     }
@@ -1740,6 +2667,71 @@ where
         let fp = flag_pos(&e);
         e[fp] = (e[fp] & !(if fmt == Fmt::Zcash { 0x20 } else { 0x80 })) | 0x40;
         bases.push(("infinity flag + coordinates of G".into(), c, e, Known::InfinityNonzeroX));
+    }
+    // hand-built strings for the zcash readers (curves/bls12_381/src/curves/util.rs), beyond distance 1 from a built
+    // encoding: in every mode only "an error or (checked) a valid subgroup point, never a panic / over-read" is demanded
+    if fmt == Fmt::Zcash {
+        let clen = 48 * m.d;
+        let zeros = |n: usize| vec![0u8; n];
+        let g_c = sw_big_bytes(&m, fmt, &g, true);
+        let g_u = sw_big_bytes(&m, fmt, &g, false);
+        let mut hand: Vec<(&str, bool, Vec<u8>)> = Vec::new();
+        // infinity flag with only y non-zero (uncompressed): in the last byte, in the first byte of y, everywhere in y
+        for (l, pos, val) in [("infinity flag, y = 1", 2 * clen - 1, 1u8), ("infinity flag, top byte of y = 1", clen, 1), ("infinity flag, y = ff..ff", usize::MAX, 0xff)] {
+            let mut e = zeros(2 * clen);
+            e[0] = 0x40;
+            if pos == usize::MAX {
+                for b in e[clen..].iter_mut() {
+                    *b = val;
+                }
+            } else {
+                e[pos] = val;
+            }
+            hand.push((l, false, e));
+        }
+        // infinity flag + sort flag on all-zero coordinates
+        let mut e = zeros(clen);
+        e[0] = 0xe0;
+        hand.push(("compressed: infinity + sort flag, x = 0", true, e));
+        let mut e = zeros(2 * clen);
+        e[0] = 0x60;
+        hand.push(("uncompressed: infinity + sort flag, x = y = 0", false, e));
+        // compression bit clear on a compressed-length input / set on an uncompressed-length input
+        let mut e = g_c.clone();
+        e[0] &= 0x7f;
+        hand.push(("compressed-length encoding of G with the compression bit clear", true, e));
+        let mut e = zeros(clen);
+        e[0] = 0x40;
+        hand.push(("compressed-length encoding of O with the compression bit clear", true, e));
+        let mut e = g_u.clone();
+        e[0] |= 0x80;
+        hand.push(("uncompressed-length encoding of G with the compression bit set", false, e));
+        let mut e = zeros(2 * clen);
+        e[0] = 0xc0;
+        hand.push(("uncompressed-length encoding of O with the compression bit set", false, e));
+        // the compressed encoding offered to the uncompressed reader and vice versa
+        hand.push(("compressed encoding of G read as uncompressed", false, g_c.clone()));
+        hand.push(("uncompressed encoding of G read as compressed", true, g_u.clone()));
+        // x = p in EVERY coefficient slot (non-canonical), with and without the flag bits a valid encoding would carry
+        let mut pbe = m.p.to_bytes_le();
+        pbe.resize(48, 0);
+        pbe.reverse();
+        for (l, c, flags) in [("x = (p, .., p), compressed", true, 0x80u8), ("x = (p, .., p), compressed + sort", true, 0xa0), ("x = y = (p, .., p), uncompressed", false, 0)] {
+            let mut e = Vec::new();
+            for _ in 0..(if c { m.d } else { 2 * m.d }) {
+                e.extend_from_slice(&pbe);
+            }
+            e[0] |= flags;
+            hand.push((l, c, e));
+        }
+        // all 0xff, all 0x00, all 0x7f / 0x1f (every flag clear, integer far above p / just flags clear)
+        for (l, v) in [("all ff", 0xffu8), ("all 00", 0), ("all 7f", 0x7f), ("all 1f", 0x1f)] {
+            hand.push((l, true, vec![v; clen]));
+            hand.push((l, false, vec![v; 2 * clen]));
+        }
+        for (l, c, e) in hand {
+            bases.push((format!("hand-built: {l}"), c, e, Known::HandBuilt));
+        }
     }
     let mut cases: Vec<Case> = Vec::new();
     for (label, compress, enc, known) in bases {
@@ -2037,7 +3029,7 @@ fn shipped_cases(ctx: &mut Ctx) {
             ctx.machinery_error(format!("shipped-curve oracle self-check: {n}"));
         }
     }
-    ctx.bound("bytes_shipped", format!("{n} shipped configurations (curves with cofactor > 1 / custom subgroup test / custom deserializer, pairing target groups): constructed encodings x {{as is, +1 byte, every bit flip of the first and last byte, every truncation length}} x 4 modes x {{Affine, Projective}}"));
+    ctx.bound("bytes_shipped", format!("{n} shipped configurations (curves with cofactor > 1 / custom subgroup test / custom deserializer, pairing target groups): constructed encodings (BLS12-381 zcash readers: also hand-built strings - infinity flag with only y non-zero, infinity + sort flag, compression bit contradicting the length, the other length's encoding, x = p in every slot, constant strings) x {{as is, +1 byte, every bit flip of the first and last byte, every truncation length}} x 4 modes x {{Affine, Projective}}"));
     ctx.sweep("bytes_shipped", cases.len() as u64, |i, loc| cases[i as usize](loc));
 }
 
@@ -2074,6 +3066,7 @@ fn main() {
         "identity_encoding",
         "small_order_point",
         "zcash_format",
+        "zcash:hand_built_string",
         "pairing_output:r_torsion",
         "pairing_output:not_r_torsion",
         "pairing_output:cyclotomic_not_r_torsion",
@@ -2097,9 +3090,54 @@ fn main() {
         "ext:field_int>=p_in_c1",
         "ext:field_int>=p_in_x",
         "ext:field_int>=p_in_y",
+        // square root / sign rule in a cubic extension field (compressed points over F_343)
+        "ext3:valid_subgroup_point",
+        "ext3:out_of_subgroup_rejected",
+        "ext3:off_curve_rejected",
+        "ext3:no_sqrt",
+        "ext3:field_int>=p",
+        "ext3:field_int>=p_in_c0",
+        "ext3:field_int>=p_in_c1",
+        "ext3:field_int>=p_in_c2",
+        "ext3:field_int>=p_in_x",
+        "ext3:field_int>=p_in_y",
+        "ext3:flags_11",
+        "ext3:identity_encoding",
+        "ext3:infinity_flag_with_nonzero_x",
+        "ext3:truncated",
+        "ext3:rhs=0",
+        "ext3:y=0_tie",
+        "ext3:y_sign_decided_by_c2",
+        "ext3:y_sign_decided_by_c1",
+        "ext3:y_sign_decided_by_c0",
+        "ext3:sign_flag_set",
+        // over-read: every accepted input of the exhaustive sweeps is fed again followed by two more bytes
+        "accepted_input_fed_again_with_trailing_bytes",
+        // Valid::check / batch_check of Projective and Affine on batches with invalid members, named wrappers
+        "valid_trait:batch_all_valid",
+        "valid_trait:batch_one_invalid",
+        "valid_trait:batch_two_invalid",
+        "valid_trait:invalid_member_first",
+        "valid_trait:invalid_member_last",
+        "valid_trait:invalid_member_in_the_middle",
+        "valid_trait:member_outside_subgroup",
+        "valid_trait:member_off_curve",
+        "valid_trait:identity_member",
+        "valid_trait:batch_of_one",
+        "wrapper:deserialize_compressed",
+        "wrapper:deserialize_compressed_unchecked",
+        "wrapper:deserialize_uncompressed",
+        "wrapper:deserialize_uncompressed_unchecked",
+        "wrapper_input:valid_subgroup_point",
+        "wrapper_input:outside_subgroup",
+        "wrapper_input:off_curve_or_no_root",
+        "wrapper_input:identity",
+        "wrapper_input:malformed",
     ]);
     ctx.assume("oracle: byte-level format model (u64 / num-bigint) classifies every input; validity of returned points: toy curves = brute-force group table (on curve, r*P = O), shipped curves = curve equation + plain double-and-add with r on the textbook affine law over the field operations (never the curve's own subgroup test / scalar multiplication); PairingOutput: x^r = 1 by the harness' own square-and-multiply");
-    ctx.assume("property reading: with validation on, Ok(P) => P on the curve and in the prime-order subgroup, and inputs of the model classes {truncated, illegal flags, integer >= p, x without root, off curve, outside subgroup} => Err; infinity flag with non-zero coordinates may be rejected or accepted as the identity (never as another point); with validation off only no-panic and no read past the advertised size are demanded");
+    ctx.assume("property reading: with validation on, Ok(P) => P on the curve and in the prime-order subgroup, and inputs of the model classes {truncated, x without root, off curve, outside subgroup} => Err; a POINT encoding with an illegal flag pattern or a coordinate integer >= p is not named by the property: an error or a valid group element is demanded there (what the library does is recorded as a class `observed:checked_accepts_..`), while a returned FIELD element must be below the modulus (site ../returned_element_not_below_modulus) and - filed separately under ../field_value - be the element the bytes denote; infinity flag with non-zero coordinates may be rejected or accepted as the identity (never as another point); with validation off only no-panic and no read past the advertised size are demanded");
+    ctx.assume("over-read: the exhaustive sweeps offer inputs up to the encoding length, where reading further is physically impossible; every input that is ACCEPTED is therefore offered again followed by the bytes a5 5a: same verdict, same value, and exactly the bytes of the original input (never more than the advertised size) are taken");
+    ctx.bound("valid_trait", "toy curves with cofactor > 1 (short Weierstrass over F_p and F_p^2, twisted Edwards; incomplete Edwards parameters: pairs off the curve only): Projective/Affine check and batch_check on batches of 1..=4 members with 0, 1 or 2 invalid members in every position; the four named deserialize_* wrappers against deserialize_with_mode on model-built encodings of every curve point, pairs off the curve and malformed strings");
     ctx.bound("bytes_toy", "toy curves with encodings of <= 3 bytes: every byte string of every length 0..=L x {checked, unchecked} x {Affine, Projective} x {compressed, uncompressed}");
     validate_toy_towers(&mut ctx);
     // ---- (E) toy curves
@@ -2119,6 +3157,12 @@ fn main() {
     sw_ext_bytes::<SwQ7A0B12>(&mut ctx, "SwQ7A0B12", Fp2Model { p: 7, beta: 6 });
     sw_ext_bytes::<SwQ5AuB11>(&mut ctx, "SwQ5AuB11", Fp2Model { p: 5, beta: 2 });
     sw_ext_bytes::<SwQ13AuB22>(&mut ctx, "SwQ13AuB22", Fp2Model { p: 13, beta: 2 });
+    // ---- (E3) a toy curve over the cubic extension field F_343
+    ctx.bound(
+        "bytes_ext3_toy",
+        "1 toy curve over F_343 = F_7[u]/(u^3-2) (a = u, b = 1+u+u^2, 366 = 6 * 61 points): compressed = every byte string of every length 0..=3 (full encoding length; 2^24 + 65793 strings) x {checked, unchecked} x {Affine, Projective}; uncompressed (6 bytes) = every pair of canonical coordinates x 4 flag patterns, every string of length 0..=2, every curve point's encoding with one byte replaced by every value / cut at every length",
+    );
+    sw_ext3_bytes::<SwC7AuB111>(&mut ctx, "SwC7AuB111", Fp3Model { p: 7, beta: 2 });
     // ---- (E) toy field elements
     macro_rules! fb {
         ($($F:ty, $n:expr);*) => {$( field_bytes_all::<$F>(&mut ctx, $n); )*};
